@@ -32,6 +32,10 @@ func runC15(c *Ctx) {
 	// or whose expiry has passed cannot start a session")
 	c.importing = "C07"
 	c07R5(c, "C07.R5")
+	// "connections carrying different UIDs never share a session": the UID the dispatcher keeps using after
+	// authentication must be the connection's own memory
+	c.importing = "C06"
+	c06R6(c, "C06.R6")
 	c.importing = ""
 }
 
